@@ -137,7 +137,12 @@ harness!(ans_seek_u8_u16_p4, unwind = 8, |s| {
     let s0 = s.u8();
     let s1 = s.u8();
     s.assume(m0.valid() && m1.valid() && s0 <= 2 && s1 <= 2);
-    let mut enc = AnsCoder::<u8, u16, Vec<u8>>::from_raw_parts(Vec::with_capacity(8), 0);
+    // start from any invariant state with one word below it, so that flushes are reachable within two symbols
+    let st0 = s.u16();
+    s.assume(st0 >= 256);
+    let mut v0: Vec<u8> = Vec::with_capacity(8);
+    v0.push(s.u8());
+    let mut enc = AnsCoder::<u8, u16, Vec<u8>>::from_raw_parts(v0, st0);
     let p0 = enc.pos();
     assert!(enc.encode_symbol(s0, m0).is_ok());
     let p1 = enc.pos();
@@ -159,7 +164,7 @@ harness!(ans_seek_u8_u16_p4, unwind = 8, |s| {
             if which >= 1 {
                 assert!(d.decode_symbol(m0).ok() == Some(s0));
             }
-            assert!(d.is_empty());
+            assert!(Code::state(&d) == st0 && d.bulk().pos() == 1);
             round += 1;
         }
         // positions beyond the data are rejected
@@ -169,9 +174,9 @@ harness!(ans_seek_u8_u16_p4, unwind = 8, |s| {
     let mut d = enc.into_seekable_decoder();
     assert!(d.seek(p1).is_ok());
     assert!(d.decode_symbol(m0).ok() == Some(s0));
-    assert!(d.is_empty());
+    assert!(Code::state(&d) == st0 && d.bulk().pos() == 1);
+    vcover!(p2.0 == 2);
     vcover!(p2.0 == 1);
-    vcover!(p2.0 == 0);
     core::mem::forget(d);
 });
 
